@@ -200,7 +200,7 @@ func (g *G) fill(v reflect.Value, fieldTag string) {
 			v.SetUint(alpha[g.choose(len(alpha))])
 			return
 		case "SignedCoins":
-			alpha := []int64{0, 1, -1, -5, 255, -256, 1<<63 - 1, -(1<<63 - 1)}
+			alpha := []int64{0, 1, -1, -5, 255, -256, 1<<63 - 1, -(1<<63 - 1), -1 << 63}
 			v.SetInt(alpha[g.choose(len(alpha))])
 			return
 		case "Magic":
